@@ -158,7 +158,21 @@ def analyse(D: decoders.Decoders, e, run: Run, facts_out=None) -> int:
     return npos
 
 
+def window_obligations(repo: Repo, run: Run, wanted, why: str) -> None:
+    """The decoders index their window by position: events[0] must be the matching START record and events[-1] the END
+    record.  That is the pairing machine's contract (C04 K3/K4); its obligations are necessary conditions here too."""
+    from . import c04
+    probe = Run("C04", run.tier, run.repo_root)
+    c04.check(repo, probe)
+    for o in probe.obligations:
+        if o["rule"] in wanted:
+            run.ob("R0", o["module"], o["scope"], f"window contract {o['rule']}: {o['construct']}", o["ok"],
+                   (o.get("what", "") + " - " + why) if not o["ok"] else "", nontrivial=False)
+
+
 def check(repo: Repo, run: Run) -> None:
+    window_obligations(repo, run, ("K3", "K9"),
+                       "the decoder's events[0] is then not the START record of the call being rendered")
     D = decoders.Decoders(repo)
     n_bsc = n_msc = 0
     npos = 0
